@@ -160,9 +160,44 @@ func TestVerifC04Seq(t *testing.T) {
 	w := newVerifWriter(t, "c04_seq_out.jsonl")
 	defer w.close()
 	for ci, c := range cases {
+		w.put(c04SeqCaseRun(ci, c))
+	}
+}
+
+// c04SeqCaseRun runs one case under a watchdog: an operation that never returns (a loop introduced
+// into a non-blocking mailbox) ends the case with out = -2 at that operation.
+func c04SeqCaseRun(ci int, c c04SeqCase) c04SeqOut {
+	var mu sync.Mutex
+	out := c04SeqOut{I: ci}
+	done := make(chan struct{})
+	go func() {
+		defer close(done)
+		defer func() {
+			if r := recover(); r != nil {
+				mu.Lock()
+				out.R = append(out.R, []int64{-6, -9, -9}) // the operation panicked
+				mu.Unlock()
+			}
+		}()
+		c04SeqCaseBody(c, &out, &mu)
+	}()
+	select {
+	case <-done:
+	case <-time.After(30 * time.Second):
+		mu.Lock()
+		out.R = append(append([][]int64{}, out.R...), []int64{-2, -9, -9})
+		mu.Unlock()
+	}
+	mu.Lock()
+	defer mu.Unlock()
+	return c04SeqOut{I: ci, R: append([][]int64{}, out.R...)}
+}
+
+func c04SeqCaseBody(c c04SeqCase, outp *c04SeqOut, mu *sync.Mutex) {
+	{
 		mb := c04NewMailbox(c.K, c.C, c.P)
 		blocking := c.K == "bounded"
-		out := c04SeqOut{I: ci}
+		out := outp
 		sent := map[int]*c04Msg{}
 		var pending chan int64
 		abort := false
@@ -225,16 +260,20 @@ func TestVerifC04Seq(t *testing.T) {
 				r = c04B2I(mb.IsEmpty())
 			}
 			if abort {
+				mu.Lock()
 				out.R = append(out.R, []int64{r, -9, -9})
+				mu.Unlock()
 				mb.Dispose()
 				break
 			}
-			out.R = append(out.R, []int64{r, mb.Len(), c04B2I(mb.IsEmpty())})
+			l, e := mb.Len(), c04B2I(mb.IsEmpty())
+			mu.Lock()
+			out.R = append(out.R, []int64{r, l, e})
+			mu.Unlock()
 		}
 		if pending != nil {
 			mb.Dispose()
 		}
-		w.put(out)
 	}
 }
 
@@ -764,6 +803,22 @@ func c04Oracle(sc *c04Scenario, hist []c04Ev, paused [][]string, finalLn map[int
 				add("len-nonzero-when-empty", fmt.Sprintf("every accepted message was dequeued but Len=%d IsEmpty=%v", finalLn[b], finalEm[b]))
 			}
 		}
+	}
+	// the fair-mailbox stall also shows as later nil Dequeues inside the same run: one defect, one report
+	stalled := false
+	for _, v := range viols {
+		if strings.Contains(v.Sig, "stuck-at-quiescence:same-sender-concurrent-enqueues") {
+			stalled = true
+		}
+	}
+	if stalled {
+		var keep []c04Viol
+		for _, v := range viols {
+			if v.Sig != sc.K+":empty-report-unexplained" {
+				keep = append(keep, v)
+			}
+		}
+		viols = keep
 	}
 	return viols
 }
